@@ -32,7 +32,7 @@ CONSTANTS Elems,        \* element values
           MaxPool,      \* pool size bound
           MaxSteps,     \* number of library calls
           ExtraCap,     \* spare capacities the runtime may add on allocation, e.g. {0, 1}
-          Deviations,   \* subset of {"PushLastInPlace", "SortInPlace", "TakeAlias", "AppendInPlace", "FilterInPlace"}
+          Deviations,   \* subset of {"PushLastInPlace", "SortInPlace", "TakeAlias", "AppendInPlace", "FilterInPlace", "CollectAdopt"}
           InitShapes    \* set of <<c, off, len>>: initial values are arr[off : off+len] of an array [1..c]
 
 VARIABLES heap,   \* sequence of arrays; an array is a sequence of cells
@@ -112,6 +112,12 @@ InPlaceAppend(i, items, rec) ==
                [v EXCEPT !.len = v.len + n, !.snap = Cur(i) \o items], rec)
   ELSE Fresh(Cur(i) \o items, rec)
 
+\* Collect whose callback hands back EXISTING values (e.g. `slice.Collect id [v_i; v_j]`): the chunks are live values
+DoCollectIdx(i, j) ==
+  IF "CollectAdopt" \in Deviations
+  THEN InPlaceAppend(i, Cur(j), H("CollectIdx", i, j, 0, 0, ""))     \* adopts the first chunk as its accumulator
+  ELSE Fresh(Cur(i) \o Cur(j), H("CollectIdx", i, j, 0, 0, ""))
+
 DoPushLast(e, i) ==
   IF "PushLastInPlace" \in Deviations
   THEN InPlaceAppend(i, <<e>>, H("PushLast", i, 0, 0, e, ""))       \* the code before the fix
@@ -177,7 +183,7 @@ NextOver(I, J, Ns, Es) ==
        \/ DoTail(i) \/ DoPopLast(i) \/ DoSort(i) \/ DoDistinct(i)
        \/ \E n \in Ns : DoTake(n, i) \/ DoSkip(n, i)
        \/ \E e \in Es : DoPushLast(e, i) \/ DoPushHead(e, i)
-       \/ \E j \in J : DoAppend(i, j) \/ DoConcat(i, j)
+       \/ \E j \in J : DoAppend(i, j) \/ DoConcat(i, j) \/ DoCollectIdx(i, j)
        \/ \E f \in {"inc", "const7"} : DoMap(f, i)
        \/ \E f \in {"idxPlus"} : DoMapi(f, i)
        \/ \E f \in {"rep", "none"} : DoCollect(f, i)
